@@ -45,7 +45,68 @@ def helpers_no_panic(res):
     res.coverage["helper_inputs_run"] = total
 
 
+def cel_panics(res):
+    """CEL rules with division, modulo, regular expressions and membership on the adversarial grid (compiled code only)."""
+    import json
+    import os
+    import random
+    import re
+    import celgen
+    from vlib import GOENV, REPO, build_govalid, go_build, run, scratch
+    exprs = [("int", "value / this.A > 1"), ("int", "value % this.A == 0"), ("int", "this.A != 0 && value / this.A > 1"), ("int", "this.A == 0 || value % this.A == 1"),
+             ("int", "100 / value > 1"), ("int64", "value / 2 > 1"), ("uint8", "200 / value > 1"), ("float64", "value / this.F > 1.0"), ("float64", "1.0 / value > 0.0"),
+             ("string", "value.matches('^[a-z]+$')"), ("string", "value.matches('(a|b)*c')"), ("string", "value in ['a', 'b'] || size(value) > 3"),
+             ("[]int", "value.all(x, 10 / x > 0)"), ("[]int", "value.exists(x, x % 2 == 0)"), ("[]string", "value.all(s, s.matches('^a'))"),
+             ("int", "-value < 3 && !(value % 2 == 0)"), ("int8", "value * value >= 0"), ("int", "value - (this.A - 3) != 0 && 7 / (value - (this.A - 3)) >= 0")]
+    rng = random.Random(res.seed)
+    scen = [celgen.scenario_for("c17cel%d" % i, vt, e, rng, 60) for i, (vt, e) in enumerate(exprs)]
+    d = os.path.join(scratch(), "c17cel")
+    os.makedirs(d, exist_ok=True)
+    sp = os.path.join(d, "scen.json")
+    json.dump({"scenarios": scen}, open(sp, "w"))
+    gh, _ = go_build("./cmd/genharness", "genharness")
+    mod = os.path.join(d, "scn")
+    run([gh, "materialize", "-in", sp, "-dir", mod, "-repo", REPO], check=True)
+    gv, err = build_govalid()
+    run([gv, "./..."], cwd=mod, env=GOENV, timeout=1800)
+    p = run(["go", "build", "./..."], cwd=mod, env=GOENV, timeout=1800)
+    broken = set(re.findall(r"^# scn/(\S+)", p.stderr or "", re.M))
+    ok_ids = [s["id"] for s in scen if s["id"] not in broken and os.path.exists(os.path.join(mod, s["id"], "x_t_validator.go"))]
+    mp = os.path.join(d, "meta.json")
+    json.dump([{"key": sid + "/T", "pkg": sid, "type": "T", "generated": True} for sid in ok_ids], open(mp, "w"))
+    run([gh, "celdriver", "-in", sp, "-dir", mod, "-meta", mp], check=True)
+    exe = os.path.join(d, "celdrv.exe")
+    p = run(["go", "build", "-o", exe, "./celdrv"], cwd=mod, env=GOENV, timeout=1800)
+    if p.returncode != 0:
+        raise RuntimeError("celdrv build failed: " + (p.stderr or "")[-2000:])
+    p = run([exe, sp], cwd=mod, timeout=1800)
+    findings = [f for f in known_findings("C17") if f.get("class") == "cel_div_by_zero"]
+    n = 0
+    seen_known = False
+    info = dict(("c17cel%d" % i, x) for i, x in enumerate(exprs))
+    for line in p.stdout.splitlines():
+        key, g, c = line.split("\t")
+        n += 1
+        if g.startswith("go=panic"):
+            sid = key.split("/")[0]
+            vt, e = info[sid]
+            ci = int(key.rsplit("/", 1)[1])
+            is_div = "integer_divide_by_zero" in g and re.search(r"[/%]", re.sub(r"'[^']*'", "", e))
+            if is_div and findings:
+                if not seen_known:
+                    res.known("%s %s: %s" % (findings[0]["id"], findings[0]["class"], findings[0]["what"]))
+                seen_known = True
+                continue
+            sc = [s for s in scen if s["id"] == sid][0]
+            res.violation({"kind": "spec-violation", "field_type": vt, "expression": e, "case": sc["structs"][0]["cases"][ci], "observed": g,
+                           "what": "Validate panicked on a struct with a CEL rule"})
+            break
+    res.coverage["cel_cases_run"] = n
+    res.coverage["cel_expressions_compiled"] = len(ok_ids)
+
+
 def check(res):
+    cel_panics(res)
     corpus = corpora.c17(res.seed, res.tier)
     gr, results = genprop.run(res, "C17", PROPFILE, corpus,
                               extra=lambda gr, r: res.coverage.__setitem__("lattice_cases", panics_in(res, gr, "Validate panicked on this value")))
